@@ -128,9 +128,10 @@ impl Scenario for CacheBankHistory {
         let rom_code: u8 = if cart_type == 0 {
             0
         } else if thorough {
-            rng.pick(&[1u8, 2, 3, 4, 5])
+            rng.pick(&[1u8, 2, 3, 4, 5, 6])
         } else {
-            rng.pick(&[1u8, 1, 2, 2, 3, 5])
+            // 1 in 12: 128 banks, so that bank numbers need all seven bits of the cache's tag
+            rng.pick(&[1u8, 1, 2, 2, 3, 5, 1, 2, 3, 5, 2, 6])
         };
         let banks = rom_banks(rom_code);
         case.set("cart_type", cart_type as i64);
@@ -193,13 +194,26 @@ impl Scenario for CacheBankHistory {
         let ntramp = rng.range(4, 20) as usize;
         let interesting: Vec<u8> = {
             let mut v: Vec<u8> = vec![0, 1, 2, 3, 0x1f, 0x20, 0x21, 0x3f, 0x40, 0x41, 0x60, 0x61, 0x7f, 0x80, 0xff];
+            if banks > 64 {
+                v.extend([0x40u8 | 1, 0x40 | 2, 0x40 | 5, 0x45, 0x05, 0x42, 0x02, 0x7e, 0x3e]);
+            }
             v.push(banks as u8);
             v.push((banks as u8).wrapping_add(1));
             v.push((banks - 1) as u8);
             v
         };
+        let mut pair: Option<(u8, u16)> = None;
         for t in 0..ntramp {
             let mut code: Vec<u8> = Vec::new();
+            // large MBC3 cartridges: every other trampoline selects the bank 64 away from its predecessor's and enters the same
+            // address, so that two banks differing only in bit 6 meet in the cache
+            if banks > 64 && cart_type >= 0x11 && t % 2 == 1 {
+                if let Some((v, target)) = pair.take() {
+                    code.extend([0x3e, v ^ 0x40, 0xea, 0x00, 0x21, 0xc3, target as u8, (target >> 8) as u8]);
+                    case.blobs.insert(patch_key((TRAMP_BASE + t as u16 * TRAMP_SLOT) as usize), code);
+                    continue;
+                }
+            }
             let nw = rng.range(1, 3);
             for _ in 0..nw {
                 let (reg, val): (u16, u8) = match rng.below(8) {
@@ -218,6 +232,11 @@ impl Scenario for CacheBankHistory {
                 code.extend([0x3e, val, 0xea, reg as u8, (reg >> 8) as u8]);
             }
             let target = if rng.chance(1, 6) { case.get("lowentry") as u16 } else { entries[rng.below(entries.len() as u64) as usize] };
+            if banks > 64 && cart_type >= 0x11 && target >= 0x4000 {
+                let v = 1 + rng.below(62) as u8;
+                code = vec![0x3e, v, 0xea, 0x00, 0x21];
+                pair = Some((v, target));
+            }
             if rng.chance(1, 3) {
                 code.extend([0xcd, target as u8, (target >> 8) as u8, 0xc3, HUB as u8, (HUB >> 8) as u8]);
             } else {
